@@ -752,6 +752,13 @@ def valuedesc(v, model):
 def d_ref(owner, name, model, is_model):
     proxy = owner._get_object(name, as_proxy=True)
     d = {"value": valuedesc(proxy.value, model), "mode": proxy.refmode}
+    if d["value"][0] in ("DataFrame", "Series"):
+        # the IO spec OF THIS REFERENCE (file, type).  `model.iospecs` as a whole is not compared: a spec
+        # that no reference holds any more (C18-del-space) is not something C04 speaks about
+        try:
+            d["iospec"] = repr(model.get_spec(proxy.value))
+        except Exception as e:
+            d["iospec"] = "no spec (%s)" % err_kind(e)
     if not is_model:
         d["derived"] = bool(proxy.is_derived())
     return d
@@ -811,7 +818,6 @@ def d_space(s, model):
 def describe(m):
     return {"doc": m.doc,
             "allow_none": m.allow_none,
-            "iospecs": sorted(repr(sp) for sp in m.iospecs),
             "refs": {k: d_ref(m, k, m, True) for k in m.refs if not k.startswith("_")},
             "spaces": {sn: d_space(s, m) for sn, s in m.spaces.items()}}
 
